@@ -16,7 +16,7 @@ import json, os, re, struct, sys
 import vlib
 from props import wirelib as W
 
-COQ_FILES = ["Hostile/Decode.v", "Hostile/Multi.v", "Hostile/Proofs.v", "Hostile/MultiProofs.v", "Hostile/Props.v"]
+COQ_FILES = ["Hostile/Decode.v", "Hostile/Multi.v", "Hostile/Proofs.v", "Hostile/Segment.v", "Hostile/MultiProofs.v", "Hostile/Props.v"]
 KQ = b"SELECT * FROM data WHERE id = $1"
 PW_SENTINEL = b"md5" + b"0" * 32 + b"\0"
 HUGE = 64 * 1024 * 1024          # "huge" frames are capped at 64 MiB (pgcat really allocates and fills len bytes)
@@ -114,6 +114,31 @@ def make_toml(v, trust=False):
 
 
 # ------------------------------------------------------------------------------------- generator
+def cap_len(bs, at):
+    """random bytes: keep the announced length (the big-endian i32 at offset `at`) negative or below 64 MiB, so that the
+    pooler is not made to allocate and fill gigabytes (read_message really does that: the named limitation)"""
+    if len(bs) > at and 0x04 <= bs[at] < 0x80:
+        bs = bs[:at] + bytes([bs[at] & 0x03]) + bs[at + 1:]
+    return bs
+
+
+def sanitize(prefix, hostile):
+    """walk the stream the way read_message frames it and keep every ANNOUNCED length below 64 MiB (concatenated
+    or misaligned pieces make arbitrary text be read as a length field)"""
+    bs = bytearray(prefix + hostile)
+    i = 0
+    while i + 5 <= len(bs):
+        ln = struct.unpack(">i", bytes(bs[i + 1:i + 5]))[0]
+        if ln < 4:
+            break
+        if ln - 4 > len(bs) - (i + 5):
+            if ln > HUGE and i + 1 >= len(prefix):
+                bs[i + 1] &= 0x03
+            break
+        i += 1 + ln
+    return bytes(bs[len(prefix):])
+
+
 def malformed_bodies():
     """(label, frame bytes): well-framed messages with malformed bodies."""
     out = []
@@ -174,15 +199,15 @@ def bad_frames(rng):
             ("password_after_auth", fr(b"p", b"md5abc\0")), ("flush", Hm), ("terminate", Xm)]
     for k in range(6):
         n = rng.choice([1, 3, 5, 6, 9, 17, 40, 64])
-        out.append(("noise_%d" % k, bytes(rng.getrandbits(8) for _ in range(n))))
+        out.append(("noise_%d" % k, cap_len(bytes(rng.getrandbits(8) for _ in range(n)), 1)))
     for k in range(4):   # noise behind a plausible tag: random length field
-        out.append(("noise_tagged_%d" % k, rng.choice([b"Q", b"P", b"B", b"d"]) + bytes(rng.getrandbits(8) for _ in range(rng.choice([4, 8, 20])))))
+        out.append(("noise_tagged_%d" % k, cap_len(rng.choice([b"Q", b"P", b"B", b"d"]) + bytes(rng.getrandbits(8) for _ in range(rng.choice([4, 8, 20]))), 1)))
     return out
 
 
 def wrong_order():
     return [("bind_without_parse", Bm() + Sm), ("execute_unknown_portal", Em(b"nope") + Sm), ("copydata_outside_copy", dm(b"1\tx\n")),
-            ("copydata_outside_copy_big", dm(b"y" * 9000)), ("copydone_outside_copy", cm), ("copyfail_outside_copy", fm()),
+            ("copydata_outside_copy_big", dm(b"y" * 9000)), ("query_12k", Qm(b"SELECT '" + b"q" * 12000 + b"'")), ("copydone_outside_copy", cm), ("copyfail_outside_copy", fm()),
             ("copydata_then_sync", dm(b"1\tx\n") + Sm), ("sync_storm", Sm * 5), ("sync_flush_storm", (Sm + Hm) * 3),
             ("describe_then_sync", Dm(b"S", b"") + Sm), ("close_then_sync", Cm(b"S", b"") + Sm), ("close_named_then_sync", Cm(b"S", b"s1") + Sm),
             ("terminate_mid_batch", Pm(b"", b"SELECT 1") + Bm() + Xm), ("parse_bind_exec_sync", Pm(b"", b"SELECT 'e'") + Bm() + Em() + Sm),
@@ -261,7 +286,7 @@ def gen_cases(rng, quick):
             ("startup_len_short_of_content", startup(good, length=12)),
             ("startup_valid_then_garbage", startup(good) + b"\xff" * 7)]
     for k2 in range(5):
-        pre.append(("startup_noise_%d" % k2, bytes(rng.getrandbits(8) for _ in range(rng.choice([1, 4, 8, 13, 40])))))
+        pre.append(("startup_noise_%d" % k2, cap_len(bytes(rng.getrandbits(8) for _ in range(rng.choice([1, 4, 8, 13, 40]))), 0)))
     for lab, hb in pre:
         cases.append(dict(kind="pre", variant="plain", state="pre_startup", cat="startup", label=lab, hostile=hb, probe=False))
         cases.append(dict(kind="pre", variant="plain", state="after_ssl_n", cat="startup", label=lab, hostile=hb, probe=False))
@@ -316,6 +341,13 @@ def stream_bytes(c):
     hb = c["hostile"]
     if c.get("probe"):
         hb += (cm + PROBE) if c["state"].startswith("copy") else PROBE
+    if c["kind"] == "post":
+        return sanitize(post_states(VARIANTS[c["variant"]])[c["state"]][0], hb)
+    if c["kind"] == "admin":
+        return sanitize(b"", hb)
+    if c["state"] == "pre_startup_trust":
+        n = struct.unpack(">i", hb[:4])[0]
+        return hb[:n] + sanitize(b"", hb[n:])
     return hb
 
 
@@ -376,7 +408,7 @@ def task_class(t):
 def observe(res, c):
     """what the attacker saw and how its task ended (canonical)"""
     ev = res.get("events", [])
-    zs, nerr, closed = [], 0, False
+    zs, nerr, closed, outcome = [], 0, False, None
     started = c["kind"] == "pre"
     for e in ev:
         if e.get("who") != "a":
@@ -397,11 +429,12 @@ def observe(res, c):
                 nerr += 1
         if e.get("label") == "hostile":
             closed = e.get("outcome") in ("closed", "closed-in-frame")
+            outcome = e.get("outcome")
     tr = res.get("task_results", [])
     snaps = res.get("snapshots", [])
     # the attacker's task is the first one that can have ended (the canary stays connected)
     t = tr[0] if tr else None
-    return {"zs": zs, "nerr": nerr, "closed": closed, "task": task_class(t), "task_raw": t}
+    return {"zs": zs, "nerr": nerr, "closed": closed, "recv_outcome": outcome, "task": task_class(t), "task_raw": t}
 
 
 CLEAN = {"txn": "I", "copy": False, "gucs": [], "role": None, "stmts": [], "sql_prepared": [], "listens": []}
@@ -583,7 +616,7 @@ def compare(c, obs, val):
     if obs["task"] not in expected_task(kl, sc):
         diffs.append("task ending: model %s (state class %d), implementation %s (%s)" % (kl, sc, obs["task"], (obs["task_raw"] or "")[:120]))
     if kl != "KBlocked" and not obs["closed"]:
-        diffs.append("model %s but the connection was not closed by the pooler after the client's half-close" % kl)
+        diffs.append("model %s but the connection was not closed by the pooler after the client's half-close (recv outcome %s)" % (kl, obs.get("recv_outcome")))
     return diffs, kl, sc
 
 
@@ -746,6 +779,18 @@ def special_scenarios(run, wire, quick):
     run.cov["known_classes"] = out
 
 
+def private_copy(path, tag):
+    """other checks rebuild the shared harness binary while this one runs (the tree under /repo and harness/src moves):
+    run every scenario of one check from one snapshot of the binary"""
+    import shutil
+    d = os.path.join(vlib.TMP, "c11_bin")
+    os.makedirs(d, exist_ok=True)
+    with vlib.Lock("cargo"):
+        dst = os.path.join(d, "wire_%s_%d" % (tag, os.getpid()))
+        shutil.copy2(path, dst)
+    return dst
+
+
 def check(run):
     quick = run.tier == "quick"
     rng = run.rng
@@ -769,7 +814,7 @@ def check(run):
     if not ok:
         run.violation("tie-broken", "harness does not build against /repo", {"correspondence": "wire harness build", "log": blog[-3000:]}, found_input=False)
         return
-    wire = bins["wire"]
+    wire = private_copy(bins["wire"], "dbg")
     rx = custom_regexes()
     if rx is None:
         run.violation("tie-broken", "CUSTOM_SQL_REGEXES literal not found in query_router.rs (shape changed)", {"correspondence": "custom command oracle"}, found_input=False)
@@ -786,7 +831,7 @@ def check(run):
     if not quick:
         ok2, blog2, bins2 = vlib.cargo_build(["wire"], release=True)
         if ok2:
-            rel = bins2["wire"]
+            rel = private_copy(bins2["wire"], "rel")
             sub = [c for c in cases if c["cat"] != "random"]
             run_batch(run, rel, sub, False, rx, stats, "rel")
             run.log("release build: %d streams" % len(sub))
@@ -825,6 +870,9 @@ def check(run):
     run.cov["input_distribution"] = {"by_category": dist, "states": len({c["state"] for c in cases}), "configs": len({c["variant"] for c in cases}), "release_build": rel is not None}
     if not quick and proof_ok:
         vlib.coqchk(run, ["PV.Hostile.Props"])
+    for p_ in (wire, rel):
+        if p_ and os.path.exists(p_):
+            os.remove(p_)
 
 
 def replay(run, path):
